@@ -152,6 +152,7 @@ def run(chk, prog, tier):
     check_dependence(chk, prog, env, model)
     chk.assumptions += ['hidden state inside OpenSSL/GnuTLS/jansson (RNG, error queues) is outside the analysis',
                         'type-based effects: writes through char* aliases of typed objects other than memset/memcpy/strcpy/snprintf are not seen']
+    H.require_reached(H.VERIFY_PRIMS + H.SIGN_PRIMS + H.HMAC_PRIMS, 'C13')
     return chk.finish(
         'Effect analysis over the resolved call graph (indirect calls through the ops tables and function-pointer parameters resolved): '
         'nothing reachable from jwt_checker_verify / jwt_builder_generate writes the stored configuration or any global; and a path-'
